@@ -508,7 +508,15 @@ func genPtrCase(r *rand.Rand, cfg Cfg) Case {
 			// a cursor opened on that tree, placed, and a move whose k-th load fails; the same move
 			// once more (a failed Forward / Backward leaves the cursor where it was)
 			c := ncur
-			ops = append(ops, fmt.Sprintf("cur %d %d", s, c), "pgraph", pick(r, []string{fmt.Sprintf("cmin %d", c), fmt.Sprintf("cmax %d", c), fmt.Sprintf("cceil %d %d", c, pick(r, uni))}), "pgraph")
+			place := pick(r, []string{fmt.Sprintf("cmin %d", c), fmt.Sprintf("cmax %d", c), fmt.Sprintf("cceil %d %d", c, pick(r, uni))})
+			ops = append(ops, fmt.Sprintf("cur %d %d", s, c), "pgraph")
+			if r.Intn(2) == 0 {
+				// the placement itself with a failing k-th load: it leaves the path walked so far (compared
+				// through pgraph), and the same placement called again resumes from there
+				// (C12_failed_placement_resumes)
+				ops = append(ops, fmt.Sprintf("pfail %d %s", pick(r, []int{1, 1, 1, 2, 2, 3}), place), "pgraph", "ptick")
+			}
+			ops = append(ops, place, "pgraph")
 			mv := pick(r, []string{"cfwd", "cbwd"})
 			for j := 0; j < r.Intn(4); j++ {
 				ops = append(ops, fmt.Sprintf("%s %d", mv, c), "pgraph")
